@@ -1,10 +1,13 @@
 ---- MODULE MC_d4 ----
 EXTENDS MC
 \* the shape of defect D4: a chain of copies  s -> p -> q  and an independent copy  s2 -> p2
-mcOrd == <<"p", "p2", "q", "s", "s2">>
-mcMenu == << << Rl(<<"p">>, <<"s">>, "copy", "c1"), Rl(<<"p2">>, <<"s2">>, "copy", "c2"), Rl(<<"q">>, <<"p">>, "copy", "c3") >> >>
+mcOrd == <<"f", "p", "p2", "q", "s", "s2">>
+mcMenu == << << Rl(<<"p">>, <<"s">>, "copy", "c1"), Rl(<<"p2">>, <<"s2">>, "copy", "c2"), Rl(<<"q">>, <<"p">>, "copy", "c3") >>,
+             \* the same with an unrelated rule that always fails
+             << Rl(<<"f">>, <<"s2">>, "fail", "c4"), Rl(<<"p">>, <<"s">>, "copy", "c1"), Rl(<<"p2">>, <<"s2">>, "copy", "c2"), Rl(<<"q">>, <<"p">>, "copy", "c3") >> >>
 mcInit == << <<"s", "S0">>, <<"s2", "S1">> >>
 mcScriptD4 == << <<"build", "">>, <<"edit", "s", "S1">>, <<"edit", "s2", "S0">>, <<"build", "">>, <<"clean", "p2">>, <<"edit", "s", "S0">>, <<"build", "q">> >>
 \* the D4 history continued: the table left behind by the restoring build is used again
 mcScriptD4long == mcScriptD4 \o << <<"build", "">>, <<"edit", "s", "S1">>, <<"build", "">>, <<"clean", "">>, <<"edit", "s", "S0">>, <<"build", "">> >>
+mcScriptD4fail == << <<"rules", 2>> >> \o mcScriptD4long
 ====
